@@ -8,3 +8,4 @@ open BeffVerif.C05
 #print axioms scalar_subtype_iff_inclusion
 #print axioms isSubtype_def
 #print axioms object_union_on_the_left_is_unsound
+#print axioms BeffVerif.C05.index_union_on_the_right_is_unsound
